@@ -359,6 +359,17 @@ def analyse_tu(tu):
                 keep.append(f)
             else:
                 hit.add(g)
+        # a helper that is only dirty because of another new helper: report at
+        # the innermost one (follow the chain down)
+        work = list(hit)
+        while work:
+            g = work.pop()
+            for origs in results[g].param_origins.values():
+                for origin, _w, _r in origs:
+                    for c in nt:
+                        if "via %s(" % c in origin and c not in hit:
+                            hit.add(c)
+                            work.append(c)
         for g in sorted(hit):
             an = results[g]
             for prm, origs in sorted(an.param_origins.items()):
